@@ -410,12 +410,18 @@ func ruleS7(r *Run) {
 				ast.Inspect(fd.Body, func(k ast.Node) bool {
 					if ifs, ok := k.(*ast.IfStmt); ok && ifs.Pos() > call.Pos() {
 						if be, ok := ifs.Cond.(*ast.BinaryExpr); ok && be.Op == token.NEQ && types.ExprString(be.X) == "err" && endsInJump(ifs.Body.List) {
-							refuses = true
+							// ... and the refusal says "too large" (the caller is owed that error, not a generic failure)
+							ast.Inspect(ifs.Body, func(x ast.Node) bool {
+								if id, ok := x.(*ast.Ident); ok && strings.Contains(id.Name, "RequestEntityTooLarge") {
+									refuses = true
+								}
+								return true
+							})
 						}
 					}
 					return true
 				})
-				r.Check(refuses, key, call.Pos(), "overflow reported by the read error, which refuses the request", "http.MaxBytesReader hands over the first limit bytes and reports the overflow only through the read error, which is not turned into a refusal here: the request is truncated to exactly the limit and dispatched as if it were complete (200 instead of 413)")
+				r.Check(refuses, key, call.Pos(), "overflow reported by the read error, which refuses the request as too large", "http.MaxBytesReader hands over the first limit bytes and reports the overflow only through the read error, which is not turned into a request-too-large refusal here: the request is truncated to exactly the limit and dispatched as if it were complete (200 instead of 413), or refused with an error that does not say why")
 				return true
 			}
 			r.Viol(key, call.Pos(), fmt.Sprintf("the reader lets through at most %s bytes, which is not more than the limit %s: len(data) can never exceed the limit, the too-large test after the read is dead, and an oversized body without Content-Length is silently truncated and dispatched", types.ExprString(bound), types.ExprString(limit)))
